@@ -109,6 +109,9 @@ def run(ctx):
         ctx.refute("C06.exit", sample.ident, loc_of(sample, other[0].ast), "the SMC loop can be left by a return, not only at beta == 1 or the step cap")
     it_name = None
     eq_exit = False
+    from .smcloop import roles as _roles
+    R = _roles(repo)
+    b_loc = T.atom(R.beta)
     for cond, node in exit_conds:
         clauses = list(cond[1]) if cond[0] == "or" else [cond]
         has_beta = False
@@ -116,12 +119,12 @@ def run(ctx):
         for cl in clauses:
             if cl[0] == "cmp" and len(cl) == 3:
                 lf = T.linear_form(cl[2])
-                if set(lf) == {T.atom("beta"), ()} and lf[T.atom("beta")] in (1, -1) and lf[()] == -lf[T.atom("beta")]:
+                if set(lf) == {b_loc, ()} and lf[b_loc] in (1, -1) and lf[()] == -lf[b_loc]:
                     if cl[1] == "==":
                         has_beta = True
                         eq_exit = True
                         continue
-                    if cl[1] in (">=",) and lf[T.atom("beta")] == 1:
+                    if cl[1] in (">=",) and lf[b_loc] == 1:
                         has_beta = True
                         continue
             if cl[0] == "and":
@@ -162,10 +165,10 @@ def run(ctx):
             return 0
         return w
 
-    cnt = g.count_range(loop, assigns("beta"))
+    cnt = g.count_range(loop, assigns(R.beta))
     ctx.decide(cnt == (1, 1), "C06.once", sample.ident, loc_of(sample, lnode), "beta is assigned exactly once per iteration",
                f"beta is assigned between {cnt[0]} and {cnt[1]} times per iteration", disc="beta")
-    upd = [n for n in loop["body"] if assigns("beta")(n)]
+    upd = [n for n in loop["body"] if assigns(R.beta)(n)]
     ok = False
     if len(upd) == 1 and isinstance(upd[0].ast, ast.Assign) and isinstance(upd[0].ast.value, ast.Call):
         call = upd[0].ast.value
@@ -175,7 +178,8 @@ def run(ctx):
             bound = dict(zip(p, names))
             for kw in call.keywords:
                 bound[kw.arg] = kw.value.id if isinstance(kw.value, ast.Name) else None
-            ok = bound.get("beta") == "beta" and bound.get("samples") == "samples" and bound.get("min_step") == "min_step" and bound.get("beta_step") == "beta_step"
+            # the state handed in is the loop's own: current population, current temperature, the running minimum step
+            ok = bound.get("beta") == R.beta and bound.get("samples") == R.samples and bound.get("min_step") == R.min_step and bound.get("beta_step") is not None
     ctx.decide(ok, "C06.once", sample.ident, loc_of(sample, upd[0].ast if upd else lnode),
                "the new temperature comes from determine_beta(samples, beta, beta_step, min_step, ...) on the current state",
                "the temperature update is not determine_beta applied to the current samples / beta / step arguments", disc="source")
@@ -246,11 +250,11 @@ def run(ctx):
     lpp = [sfp.loop] if sfp.loop is not None else []
     if lpp:
         pre = lpp[0]["pre"]
-        bs = pre.get("beta_step")
+        bs = pre.get(R.beta_step) if R.beta_step else None
         n_st = T.atom("n_steps")
         ok_bs = bs is not None and T.select(bs, ("is", n_st, T.NONE), False) == T.div(T.ONE, n_st)
         ctx.decide(ok_bs, "C06.opts", sample.ident, loc_of(sample), "fixed step == 1 / n_steps", f"the fixed temperature step is {T.show(bs)[:100] if bs else None}, not 1 / n_steps: a schedule of n steps does not take n iterations", disc="beta_step")
-        ms = pre.get("min_step")
+        ms = pre.get(R.min_step)
         mn, mx = T.atom("min_step"), T.atom("max_n_steps")
         ok_ms = ms is not None and T.select(ms, ("is", mn, T.NONE), False) == mn \
             and T.select(T.select(ms, ("is", mn, T.NONE), True), ("is", mx, T.NONE), True) == T.ZERO
@@ -286,7 +290,7 @@ def run(ctx):
     # ---- a fresh run starts from beta = 0 at iteration 0
     if lpp:
         pre = lpp[0]["pre"]
-        b0, i0 = pre.get("beta"), pre.get("iterations")
+        b0, i0 = pre.get(R.beta), pre.get(R.iterations)
         while i0 is not None and i0[0] == "or" and len(i0[1]) == 2 and T.const_value(i0[1][0]) is not None:
             i0 = i0[1][0] if T.const_value(i0[1][0]) != 0 else i0[1][1]  # `k or d` with a constant k
         ctx.decide(b0 is not None and T.const_value(b0) == 0 and i0 is not None and T.const_value(i0) == 0, "C06.opts", sample.ident, loc_of(sample),
@@ -363,7 +367,7 @@ def run(ctx):
     if not lps:
         ctx.unknown("C06.prog", sample.ident, loc_of(sample), "SMC loop not recorded by the evaluator")
         return
-    pre_ms = lps[0]["pre"].get("min_step")
+    pre_ms = lps[0]["pre"].get(R.min_step)
     if pre_ms is None:
         ctx.unknown("C06.prog", sample.ident, loc_of(sample), "min_step not defined before the loop")
         return
